@@ -252,6 +252,10 @@ def probe_config(base, test, family):
             if not arrived:
                 stats['unrealisable'] += 1
                 continue
+            # a THIRD connection answering with the serial of R's outstanding call to S is not the requested reply
+            judge('%s-forged-by-third R' % kind, 'Q', 'R',
+                  R.method_return(ser('Q'), cs, sess.uname['R'], body()) if kind == 'return' else R.error(ser('Q'), cs, 'p.Err', sess.uname['R'], body()),
+                  P.Msg(2, requested_reply=False) if kind == 'return' else P.Msg(3, error='p.Err', requested_reply=False), ['R'])
             if kind == 'return':
                 judge('return-requested R', S, 'R', R.method_return(ser(S), cs, sess.uname['R'], body()), P.Msg(2, requested_reply=True), ['R'])
             else:
